@@ -86,6 +86,10 @@ def _configs(tier):
     # heterogeneous reward rows (information/stability/slew metrics differ per pair) and visibility rows
     add("munkres_2x3_cost_far", 2, 3, "MunkresDecision", reward="cost", far_target=True)
     add("greedy_2x2_cost", 2, 2, "MyopicNaiveGreedyDecision", reward="cost")
+    # output step twice the physics step: records of the non-output step wait in the hand-over buffer
+    add("munkres_2x2_output120", 2, 2, "MunkresDecision", steps=max(n_steps, 2) + 2, cfg_over={"time": {"output_step_sec": 120}})
+    add("greedy_miss_output120", 2, 1, "MyopicNaiveGreedyDecision", steps=4, fov={"fov_shape": "conic", "cone_angle": 0.001},
+        cfg_over={"noise": {"init_position_std_km": 200.0}, "time": {"output_step_sec": 120}})
     add("munkres_1x2", 1, 2, "MunkresDecision")
     add("munkres_1x1", 1, 1, "MunkresDecision")
     if tier == "thorough":
@@ -110,10 +114,25 @@ def _per_step(sc, k, rec):
     jd = float(sc.clock.julian_date_epoch)
     info = {"step": k, "jd": jd, "time": float(sc.clock.time), "engines": {}}
     with sc.database.engine.connect() as conn:
-        obs_rows = conn.execute(text("SELECT sensor_id, target_id FROM observations WHERE julian_date = :jd"), {"jd": jd}).fetchall()
-        miss_rows = conn.execute(text("SELECT sensor_id, target_id FROM missed_observations WHERE julian_date = :jd"), {"jd": jd}).fetchall()
-    info["db_obs"] = [tuple(r) for r in obs_rows]
-    info["db_miss"] = [tuple(r) for r in miss_rows]
+        obs_rows = conn.execute(text("SELECT sensor_id, target_id, julian_date FROM observations")).fetchall()
+        miss_rows = conn.execute(text("SELECT sensor_id, target_id, julian_date FROM missed_observations")).fetchall()
+    # everything stored so far (all epochs): compared cumulatively at every step that saves
+    info["db_obs"] = sorted((int(r[0]), int(r[1]), float(r[2])) for r in obs_rows)
+    info["db_miss"] = sorted((int(r[0]), int(r[1]), float(r[2])) for r in miss_rows)
+    info["saved"] = bool(sc.clock.time % sc.output_time_step == 0)
+    # independent pointing reference: unit slant-range vector (site horizon frame) from each sensor to the
+    # *predicted* estimate of each target at this epoch (what the sensor is commanded to point at)
+    from resonaate.physics.transforms.methods import getSlantRangeVector  # noqa: PLC0415
+
+    pointing = {}
+    for sid, sa in sc.sensor_agents.items():
+        for tid, est in sc.estimate_agents.items():
+            pred = np.asarray(est.nominal_filter.pred_x, dtype=float)
+            if pred.shape != (6,):
+                continue
+            v = np.asarray(getSlantRangeVector(sa.eci_state, pred, sc.clock.datetime_epoch), dtype=float)[:3]
+            pointing[(sid, tid)] = v / np.linalg.norm(v)
+    info["pointing"] = pointing
     for eid, eng in sc.tasking_engines.items():
         info["engines"][eid] = {
             "decision": eng.decision_matrix.copy(),
@@ -140,14 +159,17 @@ def _per_step(sc, k, rec):
     job_obs, job_miss, job_primary = [], [], []
     for step, name, result in rec.deliveries:
         if step == k and name.endswith("asyncExecuteTasking"):
-            job_obs += [(o.sensor_id, o.target_id) for o in result.observations]
-            job_miss += [(m.sensor_id, m.target_id) for m in result.missed_observations]
+            job_obs += [(o.sensor_id, o.target_id, float(o.julian_date)) for o in result.observations]
+            job_miss += [(m.sensor_id, m.target_id, float(m.julian_date)) for m in result.missed_observations]
             for si in result.sensor_info_list:
                 sid = si["sensor_id"]
                 n_o = sum(1 for o in result.observations if o.sensor_id == sid and o.target_id == result.target_id)
                 n_m = sum(1 for m in result.missed_observations if m.sensor_id == sid and m.target_id == result.target_id)
                 job_primary.append((sid, result.target_id, n_o, n_m))
     info["job_obs"], info["job_miss"], info["job_primary"] = sorted(job_obs), sorted(job_miss), job_primary
+    info["slew_miss"] = {(m.sensor_id, m.target_id) for step, name, result in rec.deliveries
+                         if step == k and name.endswith("asyncExecuteTasking")
+                         for m in result.missed_observations if "slew" in str(m.reason).lower()}
     return info
 
 
@@ -180,25 +202,26 @@ def _check_invariants(res, cfg_name, code_label, rec, item):
                     item=item,
                 )
             # (2) the engine's lists and the stored rows are exactly the multiset union of the job results
-            eng_obs = sorted((s, t) for (s, t, jd) in e["obs"] if jd == info["jd"])
-            eng_miss = sorted((s, t) for (s, t, jd) in e["miss"] if jd == info["jd"])
-            for label, got, want in (
-                ("engine_observations", eng_obs, info["job_obs"]),
-                ("engine_missed", eng_miss, info["job_miss"]),
-                ("db_observations", sorted(info["db_obs"]), info["job_obs"]),
-                ("db_missed", sorted(info["db_miss"]), info["job_miss"]),
-            ):
+            eng_obs = sorted(x for x in e["obs"] if x[2] == info["jd"])
+            eng_miss = sorted(x for x in e["miss"] if x[2] == info["jd"])
+            checks = [("engine_observations", eng_obs, info["job_obs"]), ("engine_missed", eng_miss, info["job_miss"])]
+            if info["saved"]:
+                # a saving step: everything the jobs returned since the start of the run is stored, exactly once
+                all_obs = sorted(x for i2 in rec.step_info[: k + 1] for x in i2["job_obs"])
+                all_miss = sorted(x for i2 in rec.step_info[: k + 1] for x in i2["job_miss"])
+                checks += [("db_observations", info["db_obs"], all_obs), ("db_missed", info["db_miss"], all_miss)]
+            for label, got, want in checks:
                 if len(info["engines"]) > 1:
-                    want = [(s, t) for (s, t) in want if s in e["sensors"]]
-                    got = [(s, t) for (s, t) in got if s in e["sensors"]]
+                    want = [x for x in want if x[0] in e["sensors"]]
+                    got = [x for x in got if x[0] in e["sensors"]]
                 kind = "same" if got == want else ("duplicated" if len(got) > len(want) else "lost" if len(got) < len(want) else "different")
                 res.case(
                     f"bookkeeping/{label}",
                     {"config": cfg_name, "schedule": code_label, "step": k, "engine": eid, "n_records": len(want)},
                     got == want,
                     signature=f"C08/bookkeeping/{label}/{kind}",
-                    observed=got,
-                    expected=want,
+                    observed=got[:6],
+                    expected=want[:6],
                     outcome=kind,
                     item=item,
                 )
@@ -234,6 +257,21 @@ def _check_invariants(res, cfg_name, code_label, rec, item):
                 reports = info["reported"].get(sid, [])
                 bore, tlt = info["sensor_state"][sid]
                 match = any(np.allclose(bore, rb, rtol=0, atol=1e-12) and tlt == rt for rb, rt, _ in reports)
+                # independent of what the job reported: a sensor that slewed points at (one of) its tasked target's
+                # predicted position and was last tasked now; tolerance 1e-9 rad-equivalent (pure rotation arithmetic)
+                slewed = [t for t in tasked_targets if (sid, t) not in info["slew_miss"]]
+                if slewed:
+                    want_dirs = [info["pointing"].get((sid, t)) for t in slewed]
+                    points = any(w is not None and float(np.linalg.norm(bore - w)) < 1e-9 for w in want_dirs)
+                    res.case(
+                        "bookkeeping/sensor_points_at_tasked_target",
+                        {"config": cfg_name, "schedule": code_label, "step": k, "sensor": sid, "targets": slewed},
+                        points and tlt == info["time"],
+                        signature="C08/bookkeeping/sensor_pointing_wrong",
+                        observed={"boresight": bore, "time_last_tasked": tlt},
+                        expected={"boresight_one_of": [w for w in want_dirs if w is not None], "time_last_tasked": info["time"]},
+                        item=item,
+                    )
                 res.case(
                     "bookkeeping/sensor_state",
                     {"config": cfg_name, "schedule": code_label, "step": k, "sensor": sid, "n_jobs_for_sensor": len(reports)},
@@ -247,11 +285,17 @@ def _check_invariants(res, cfg_name, code_label, rec, item):
 
 
 # ------------------------------------------------------------------------------------------------ exploration
+NOMEMO_CONFIGS = ("munkres_2x2", "greedy_2x2_cost")
+
+
 def items(tier, seed):
     # one work item per (config, batch of the default run): the worker re-derives the default run (memoised jobs)
     out = []
     for name in _configs(tier):
         out.append((name, tier))
+    # worker-side purity under reordering: no memo, one forked process per schedule
+    for name in NOMEMO_CONFIGS:
+        out.append((name, tier, None, "nomemo"))
     return out
 
 
@@ -270,8 +314,66 @@ def _codes_for(n, tier):
     return list(sched.lehmer_codes(n, max_sum=2)), f"batch of {n} jobs: orders with <=2 inversions only"
 
 
+def _run_nomemo(res, name, tier, item):
+    """Every completion order of every batch, each in its own forked process with every job really executed: the
+    states after each step must equal the default order's.  Catches results that depend on which job ran earlier in the
+    same worker process (hidden module/class-level state), which memoised replays cannot see."""
+    cfg, n_steps = _configs(tier)[name]
+    n_steps = min(n_steps, 2)
+    build = _build_fn(cfg)
+    base_states, err, trace = sched.run_forked(build, n_steps, ())
+    res.traces += 1
+    if err:
+        res.violate("nomemo/run_error", {"config": name}, signature="C08/nomemo/run_error", observed=err, item=item)
+        return
+    batches, i = [], 0
+    while i < len(trace):
+        nn, j = trace[i][0], i
+        while j < len(trace) and trace[j][0] == nn - (j - i) and trace[j][0] >= 2:
+            j += 1
+        batches.append((i, nn))
+        i = max(j, i + 1)
+    for bi, (start, nn) in enumerate(batches):
+        codes, cap = _codes_for(nn, "quick")
+        if cap:
+            res.cap(f"nomemo {name} batch {bi}: {cap}")
+        for code in codes:
+            if not any(code):
+                continue
+            states, err, _ = sched.run_forked(build, n_steps, [0] * start + list(code))
+            res.traces += 1
+            res.transitions += nn
+            diffs = []
+            if not err:
+                for sa, sb in zip(base_states, states):
+                    diffs = canon.diff(sa, sb, exact=sched.default_exact)
+                    if diffs:
+                        break
+            ok = not err and not diffs and len(states) == len(base_states)
+            pclass = sched.path_class(diffs[0][0]) if diffs else ("run_error" if err else "")
+            res.case(
+                "nomemo/one_successor",
+                {"config": name, "batch": bi, "n": nn, "code": list(code), "decision": cfg["engines"][0]["decision"]["name"],
+                 "sensor_in_multiple_jobs_of_step": False},
+                ok,
+                nontrivial=True,
+                key=f"nomemo|{name}|{bi}|{code}",
+                signature=f"C08/order_dependence/nomemo/{pclass}",
+                observed={"error": err, "diffs": [(p, str(x)[:80], str(y)[:80]) for p, x, y in diffs[:5]]},
+                expected="same canonical state as the default order with every job really executed",
+                outcome="same" if ok else f"differs:{pclass}",
+                item=item,
+            )
+            res.observe(ok)
+    res.states += len(base_states)
+
+
 def run_item(item):
     name, tier = item[0], item[1]
+    if len(item) > 3 and item[3] == "nomemo":
+        res = fw.Result()
+        _run_nomemo(res, name, tier, item)
+        return res
     only = item[2] if len(item) > 2 else None  # replay: [batch index, code]
     cfg, n_steps = _configs(tier)[name]
     res = fw.Result()
